@@ -502,6 +502,23 @@ func (ex *Exec) run() (err error) {
 		e := ex.envFor(st, c)
 		ex.bindSelf(st, c, e)
 		ex.bindLets(c, e)
+		if c == ex.con && ex.fn != nil && ex.fn.Parent() != nil {
+			// a closure's own invariant on its captured variables holds whenever it is called
+			for _, cl := range c.Ensures {
+				if cl.Label == "inv" {
+					st.sc.comment("closure invariant at entry %s", cl.Text)
+					st.sc.assert(e.eval(cl.Expr))
+				}
+			}
+			// distinct captured variables live in distinct cells
+			if len(ex.fn.FreeVars) > 1 {
+				var ids []string
+				for _, fv := range ex.fn.FreeVars {
+					ids = append(ids, st.vals[fv].S)
+				}
+				st.sc.emit("(assert (distinct %s))", strings.Join(ids, " "))
+			}
+		}
 		for k, cl := range c.Requires {
 			st.sc.comment("requires %s", cl.Text)
 			if hasRefined {
